@@ -9,6 +9,9 @@ the JSON case spec, crossed with value assignments of simple words (set / unset 
 Observe: the argv handed to `pydra.environments.base.execute` AND the argv printed by the really
 executed `vp/fakes/dumpargv`.
 Oracle: `vp.ref_argv` (written from the shell.arg documentation and the statement).
+A second family ("crossref", differential): a field whose templated argstr / formatter refers to a multi-input field
+defined before it; its arguments must be `--t <t>=<m[k]>` / `--count <len(m)>` appended to the argv of the twin
+definition without the referring fields.
 MAY (statement silent; recorded, never a violation): "" string values, empty plain lists,
 "..." combined with a non-space separator, definitions pydra refuses to build.
 Mechanism classifier: `gen_shell.classify_c22` (falsy-value-dropped, implicit-position-fills-gap).
@@ -77,6 +80,68 @@ def case_batch(batch, wctx):
     return {"multi": out}
 
 
+def crossref_one(i, rng, d):
+    """A field whose argstr / formatter refers to *another* (multi-input) field: its arguments must be rendered from
+    that field's whole value, whatever was rendered before it.  Differential: argv(definition with the referring
+    fields) == argv(twin definition without them) + the referring fields' own arguments."""
+    import json
+    import typing as ty
+    from pydra.compose import shell
+    from pydra.utils.typing import MultiInputObj
+    words = ["alpha", "beta", "gamma", "delta", "eps"]
+    m = rng.sample(words, rng.randint(1, 4))
+    tv = rng.choice(["t", "tag7", "x-y"])
+    mstyle = rng.choice(["-m", "-m...", "--m={m}", ""])
+    mname, tname, nname = rng.choice([("files", "tag", "zcount"), ("aa", "bb", "cc"), ("m", "t", "u")])
+    idx = rng.randrange(len(m))
+
+    def count_fmt(**kw):          # formatter taking the multi-input field by name
+        return f"--count {len(kw[mname])}"
+    count_fmt.__signature__ = __import__("inspect").Signature(
+        [__import__("inspect").Parameter(mname, __import__("inspect").Parameter.POSITIONAL_OR_KEYWORD)])
+    base = [shell.arg(name=mname, type=MultiInputObj[str], argstr=mstyle.replace("{m}", "{" + mname + "}"))]
+    extra = [shell.arg(name=tname, type=str, argstr="--t {" + tname + "}={" + mname + "[" + str(idx) + "]}"),
+             shell.arg(name=nname, type=bool, default=True, argstr="", formatter=count_fmt)]
+    use_fmt = rng.random() < 0.5
+    if not use_fmt:
+        extra = extra[:1]
+
+    def argv_of(args, values, tag):
+        cls = shell.define(G.DUMPARGV, inputs=args, name=G.unique_name("C22X", [i, tag, mstyle, mname, use_fmt]))
+        out = cls(**values)(cache_root=d / ("cache-" + tag), worker="debug")
+        return json.loads(out.stdout.strip().splitlines()[-1])
+    case = {"crossref": i, "m": m, "t": tv, "mstyle": mstyle, "names": [mname, tname, nname], "idx": idx, "formatter": use_fmt}
+    r = {"case": case, "sig": env.sig_of(case), "nontrivial": len(m) >= 2, "counters": {"tasks_run": 2, "crossref_pairs": 1},
+         "distinct": {"field_kinds": ["crossref"]}}
+    try:
+        twin = argv_of(base, {mname: m}, "twin")
+        full = argv_of(base + extra, {mname: m, tname: tv}, "full")
+    except Exception as e:
+        r.update(verdict="violated", mech=None, witness={"error": env.short_tb(e)})
+        return r
+    want = twin + ["--t", f"{tv}={m[idx]}"] + (["--count", str(len(m))] if use_fmt else [])
+    r["obs"] = {"twin": twin, "full": full}
+    if full == want:
+        r["verdict"] = "held"
+    else:
+        r.update(verdict="violated", mech=None,
+                 witness={"what": "arguments of a field that refers to a multi-input field were not rendered from that field's value",
+                          "expected": want, "got": full})
+    return r
+
+
+def crossref_batch(batch, wctx):
+    out = []
+    for i in range(batch["lo"], batch["hi"]):
+        d = wctx.fresh_dir(f"x{i}")
+        try:
+            out.append(crossref_one(i, wctx.rng(f"c22x-{i}"), d))
+        except Exception as e:  # harness trouble
+            out.append({"verdict": "inconclusive", "case": {"crossref": i}, "why": env.short_tb(e)})
+        G.clean_case_dir(d)
+    return {"multi": out}
+
+
 def run(ctx):
     quick = ctx.tier == "quick"
     n = G.QUICK_N.get(ctx.prop, 600) if quick else 6000
@@ -87,6 +152,9 @@ def run(ctx):
                 "distinct = distinct case spec")
     cases = [{"lo": i, "hi": min(n, i + per)} for i in range(0, n, per)]
     ctx.record_all(ctx.pmap("vp.props.c22:case_batch", cases, nproc=G.NPROC, timeout=300 if quick else 2400))
+    nx = 40 if quick else 600
+    ctx.record_all(ctx.pmap("vp.props.c22:crossref_batch", [{"lo": i, "hi": min(nx, i + 10)} for i in range(0, nx, 10)],
+                            nproc=G.NPROC, timeout=300 if quick else 1200))
     ctx.assumptions = ["reference model vp/ref_argv.py encodes the shell.arg documentation + the statement; "
                        "'' values, empty plain lists, '...' with a non-space sep and rejected definitions are MAY"]
 
@@ -95,6 +163,12 @@ def replay(ctx, rep):
     from pathlib import Path
     d = Path(ctx.scratch) / "replay"
     d.mkdir(parents=True, exist_ok=True)
+    if "crossref" in rep["case"]:
+        from vp.worker import WCtx
+        i = rep["case"]["crossref"]
+        r = crossref_one(i, WCtx(ctx.scratch, ctx.seed, ctx.prop, ctx.tier).rng(f"c22x-{i}"), d)
+        print(env.jdump({k: r.get(k) for k in ("verdict", "obs", "witness")}, indent=1))
+        return 1 if r["verdict"] == "violated" else 0
     r = run_one(rep["case"], d, "replay")
     print(env.jdump({k: r.get(k) for k in ("verdict", "mech", "obs", "witness")}, indent=1))
     return 1 if r["verdict"] == "violated" else 0
